@@ -36,6 +36,7 @@ DEFAULT_OPTS = {"align_ref": None, "random_z": True, "center_mass": False, "only
 KEY_CM_FRAME = "align_ref:center_mass:parent-not-at-rest"
 KEY_LEFT_MIXED = "only_left_angle:mixed-daughter-order:raises:KeyError"
 KEY_BWL = "chain-order:bw_l-default-from-first-declared-decay"
+KEY_MIXED_FERMION = "chain-order:one-topology-opposite-daughter-order:half-integer-spin"
 RTOL = 1e-6
 
 
@@ -82,6 +83,19 @@ def zoo():
             "R1": {"J": 1.5, "P": -1, "mass": 4.45, "width": 0.1},
             "R2": {"J": 0.5, "P": -1, "mass": 4.3, "width": 0.2},
             "R3": {"J": 0.5, "P": 1, "mass": 1.6, "width": 0.2},
+        }}))
+    # the same with the SAME inner daughter order in both resonances: found by a mutation sub-agent on the unchanged tree
+    # (the double flip of 3body-mixed-order hides it): the first declared chain of a topology orients the shared angle data,
+    # the second-listed daughter gets alpha - pi, so the chain read "the other way round" is off by 2 pi in one azimuth:
+    # a sign for half-integer spins, constant over events -> the interference of the two chains depends on which is first
+    out.append(("3body-mixed-order-fermion", {
+        "data": {"dat_order": ["B", "C", "D"]},
+        "decay": {"A": [["R1", "D"], ["D", "R2"]], "R1": ["B", "C"], "R2": ["B", "C"]},
+        "particle": {
+            "$top": {"A": {"J": 0.5, "P": 1, "mass": 5.6196}},
+            "$finals": {"B": {"J": 0.5, "P": 1, "mass": 0.938272}, "C": {"J": 0, "P": -1, "mass": 0.493677}, "D": {"J": 0, "P": -1, "mass": 3.0969}},
+            "R1": {"J": 0.5, "P": -1, "mass": 1.8, "width": 0.2},
+            "R2": {"J": 0.5, "P": -1, "mass": 2.1, "width": 0.3},
         }}))
     return out
 
@@ -337,11 +351,33 @@ def mismatch(d1, d2):
 
 def classify(cfg, opts, permuted, frame):
     changed = sorted(k for k, v in (opts or {}).items() if DEFAULT_OPTS.get(k) != v)
+    if permuted and mixed_order_fermion(cfg):
+        return KEY_MIXED_FERMION   # whatever the options: the declared order of the two oppositely written chains decides
     if opts and opts.get("align_ref") == "center_mass" and not opts.get("center_mass", False) and frame == "lab":
         return KEY_CM_FRAME
     if changed:
         return "option:" + "+".join(changed)
     return "chain-order" if permuted else "identity"
+
+
+def mixed_order_fermion(cfg):
+    """two alternatives of ONE topology with the daughters in opposite order whose mother has half-integer spin"""
+    part = cfg["particle"]
+
+    def spin(x):
+        for sec in ("$top", "$finals"):
+            if x in part.get(sec, {}):
+                return float(part[sec][x].get("J", 0))
+        return float(part.get(x, {}).get("J", 0))
+    for k in top_lists(cfg):
+        if (2 * spin(k)) % 2 != 1:
+            continue
+        alts = [[y for y in l if isinstance(y, str)] for l in cfg["decay"][k]]
+        fin = lambda x: tuple(sorted(_finals_of(cfg, x)))  # noqa: E731
+        for a_, b_ in itertools.combinations(alts, 2):
+            if len(a_) == 2 and len(b_) == 2 and fin(a_[0]) == fin(b_[1]) and fin(a_[1]) == fin(b_[0]):
+                return True
+    return False
 
 
 def flat_angles(data):
